@@ -279,6 +279,8 @@ class PiecewiseConstantBirthDeath(Distribution):
             ).cumsum(-1)
         else:
             times = self.times
+            if self.relative_times:
+                times = times * origin
             if self.origin is not None:
                 times = torch.cat((times, origin), -1)
 
@@ -302,9 +304,6 @@ class PiecewiseConstantBirthDeath(Distribution):
             rho = torch.broadcast_to(self.rho, self.lambda_.shape)
         else:
             rho = self.rho
-
-        if self.relative_times and self.times is not None:
-            times = times * self.origin
 
         p, A, B = self.log_p(times[..., 1:], times[..., :-1], rho)
 
